@@ -26,6 +26,7 @@ func vAssume(c bool)
 func vAssert(c bool, msg string)
 func vReach(tag string)
 func vYield()
+func vSamePoint(a, b interface{ Marshal() []byte }) bool
 func vClockMax(ns int64)
 func vQuiesce()
 func vObserve(tag string, v interface{})
@@ -147,6 +148,9 @@ func vAssert(c bool, msg string) {
 }
 func vReach(tag string) {}
 func vYield()           { runtime.Gosched() }
+func vSamePoint(a, b interface{ Marshal() []byte }) bool {
+	return string(a.Marshal()) == string(b.Marshal())
+}
 func vClockMax(int64)   {}
 func vQuiesce() {
 	for i := 0; i < 20; i++ {
